@@ -1042,6 +1042,14 @@ pub fn check_case(c: &Case14, model: &mut Model, rep: &mut Report) {
         }
     }
     let info = |what: &str| json!({"origin": c.origin, "xml": c.xml, "acts": acts_json(&c.acts), "what": what});
+    if (run.panicked || run.timed_out) && run.trace.len() > 60_000 {
+        // runaway: the document and its children feed each other for ever (a child's start-up message
+        // changes data that re-enters the invoking state, which starts the next child, …) or a
+        // macrostep does not end; the recording tracer ended the session at its cap.  Not a
+        // platform failure: a platform hang produces no trace, a platform panic not this much.
+        rep.count("skipped_runaway_feedback_loop");
+        return;
+    }
     if SUPPORT_MODE.load(std::sync::atomic::Ordering::Relaxed) && (run.executor_stuck || run.panicked || run.timed_out) {
         if run.executor_stuck {
             // the known lock-order deadlock (C17-E-P): not this property's business
@@ -1058,14 +1066,6 @@ pub fn check_case(c: &Case14, model: &mut Model, rep: &mut Report) {
     }
     if run.executor_stuck {
         rep.oracle_fail("C14:deadlock:executor-state-held", info("the executor's state mutex is held for good: session start (executor state → processor) against a cross-session send (processor → executor state); the parent takes no further step"));
-        return;
-    }
-    if (run.panicked || run.timed_out) && run.trace.len() > 60_000 {
-        // runaway: the document and its children feed each other for ever (a child's start-up message
-        // changes data that re-enters the invoking state, which starts the next child, …) or a
-        // macrostep does not end; the recording tracer ended the session at its cap.  Not a
-        // platform failure: a platform hang produces no trace, a platform panic not this much.
-        rep.count("skipped_runaway_feedback_loop");
         return;
     }
     if run.panicked || run.timed_out {
